@@ -49,6 +49,19 @@ func TestC02(t *testing.T) {
 			}
 		}
 	}
+	// long ranges (one protocol page is 64 headers): none, or one defect around / beyond position 64
+	for _, ln := range []int{63, 64, 65, 66, 130} {
+		for _, tr := range []string{"adjacent", "far"} {
+			mon.Emit(r, "seq", c02P{Len: ln, Trusted: tr}, "seq")
+			for _, k := range []string{"forged", "gap", "future", "dup", "type-soft", "zero"} {
+				for _, pos := range []int{0, 62, 63, 64, 65, ln - 1} {
+					if pos < ln {
+						mon.Emit(r, "seq", c02P{Len: ln, Trusted: tr, Defects: []c02Defect{{k, pos}}}, "seq")
+					}
+				}
+			}
+		}
+	}
 	// double defects by PRNG
 	rng := r.Rand("double")
 	for i := 0; i < r.N(600, 60000); i++ {
